@@ -310,6 +310,8 @@ def guarded(fn):
 
 
 def main(ctx):
+    from mc.longarr import marks as _marks
+    LONG_EXTRA = tuple(m + d for m in _marks(ctx) for d in (0, 1))      # universal marks, see mc/longarr.py
     from esutil import coords
 
     gen = seeded_points(ctx.seed)
@@ -476,7 +478,7 @@ def main(ctx):
                 aunits.append((sel, b1950, form, tuple(windows(pts)[:6])))
             aunits.append((sel, b1950, "ndarray", ((),)))
             if sel in (1, 4) and not b1950:
-                aunits.append((sel, b1950, "long", (100000, 200000, 99999, 65536)))
+                aunits.append((sel, b1950, "long", (100000, 200000, 99999, 65536) + LONG_EXTRA))
 
     def expand_earr(u):
         sel, b1950, form, wins = u
@@ -676,7 +678,7 @@ def main(ctx):
     for form in ("ndarray", "list"):
         sunits += [("arr", form, tuple(ch)) for ch in chunks(windows(sd_pts), 10)]
     sunits += [("pair", sd_pairs[i], tuple(sd_pairs[:i])) for i in range(1, len(sd_pairs))]
-    sunits += [("long", n) for n in (99999, 100000, 100001, 200000, 65536, 1000000)]
+    sunits += [("long", n) for n in (99999, 100000, 100001, 200000, 65536, 1000000) + LONG_EXTRA]
 
     def expand_sdss(u):
         if u[0] == "long":
